@@ -525,7 +525,14 @@ DOC_BLOCKS = [
 ]
 
 
+DOC_FORCE = [False, 0]
+
+
 def docs():
+    if DOC_FORCE[0]:
+        # the "documented like in real life" items: every documentable place gets one of the blocks, in turn
+        DOC_FORCE[1] += 1
+        return list(DOC_BLOCKS[DOC_FORCE[1] % len(DOC_BLOCKS)])
     r = R.random()
     if r < 0.1:
         return list(R.choice(DOC_BLOCKS))
@@ -750,7 +757,7 @@ def c16_systematic():
 
 
 # ---------------------------------------------------------------------------------------------
-n12, n05, n16 = (14, 16, 40) if size == "quick" else (60, 60, 160)
+n12, n05, n16 = (20, 28, 80) if size == "quick" else (60, 80, 200)
 mods = []
 for k in range(n12):
     open(os.path.join(out, f"p{k}.rs"), "w").write(trait_module(gen_trait(k)))
@@ -761,6 +768,11 @@ for k in range(n05):
 for k in range(n16):
     open(os.path.join(out, f"t{k}.rs"), "w").write(gen_c16(k))
     mods.append(("c16", f"t{k}"))
+DOC_FORCE[0] = True
+for k in range(n16, n16 + (30 if size == "quick" else 60)):
+    open(os.path.join(out, f"t{k}.rs"), "w").write(gen_c16(k))
+    mods.append(("c16", f"t{k}"))
+DOC_FORCE[0] = False
 for k, text in enumerate(c16_systematic()):
     open(os.path.join(out, f"ts{k}.rs"), "w").write(text)
     mods.append(("c16", f"ts{k}"))
